@@ -177,6 +177,11 @@ def run(ch, build):
     ch.extra["exhaustive_note"] = ("all finite domains enumerated completely; durations: %s" %
                                    ("every whole second 0..64 days" if not ch.quick() else
                                     "all of 0..7299 s, a stride of 41 s up to 64 days, and +-2 s around every unit multiple (thorough tier: every second)"))
+    # the conversions are functions of their arguments - also when several goroutines use them at once (one per connection)
+    for k, out in enumerate(core.harness(["concprim 16 %d %d" % (1500 if ch.quick() else 20000, ch.rng.randrange(1 << 30)) for _ in range(3)])):
+        ch.note_case("c20-concurrent", str(k))
+        if out != "ok":
+            ch.violation({"kind": "c20-concurrent"}, {"what": "a conversion returned another result when other goroutines were converting too", "detail": out})
     return ch.finish(rule=RULE, assumptions=[
         "Go's float conversions in rollingAvgPeriodByte (Seconds/Minutes/Hours) are modelled as integer division; the exhaustive duration sweep checks that model against the code",
     ])
